@@ -933,7 +933,7 @@ def tab_cli_derive_when(run, pc, R="TAB-cli"):
                 not_printing = True
     unnamed = any(f.edge_dominates(sb, none_, cb) for sb, some_, none_ in option_tests(f, lambda d: d.endswith(".output_filename")))
     # ... and only once every input file name is known: not inside the loop that collects them
-    pushes = [bi for bi, t in pc.calls() if re.search(r"Vec::<.*>::(push|extend|append|insert)$", t.get("callee") or "") and _deep(pc, t["args"][0], 5).endswith(".input_filenames")]
+    pushes = [bi for bi, t in pc.calls() if re.search(r"(Vec::<.*>::(push|extend|append|insert|extend_from_slice)|iter::Extend::extend)$", t.get("callee") or "") and t["args"] and _deep(pc, t["args"][0], 5).endswith(".input_filenames")]
     site_in_pc = cb if f is pc else next((bi for bi, t in pc.calls() if (t.get("resolved") or "") == f.id), None)
     in_collect_loop = False
     for h in pc.reachable():
